@@ -26,7 +26,8 @@ from . import common
 from .common import Result
 
 PROP = "C06"
-RULE = ("image stream: 2-D images 5-40 px, 3-D 4-14 px, uint8/uint16/float; textures = 2-6 level "
+RULE = ("image stream: 2-D images 5-40 px, 3-D 4-14 px, uint8/uint16/int32/uint32/int64/float "
+        "(wide integer images carry near-ties of relative difference < 1e-5); textures = 2-6 level "
         "palettes, plateaus, checkerboards, spikes on the margin boundary, blobs, all-black, single "
         "pixel; separation scalar or per-axis from {1..7, 1.5, 2.5, 3.5} (odd and even boxes); "
         "percentile from {0,30,64,90,100} or k/8; margin default / 0 / scalar / per-axis; precise "
@@ -152,7 +153,8 @@ def gen_image_case(rng, thorough=False):
         shape = [rng.randint(4, 14) for _ in range(3)]
         if rng.random() < 0.5:
             shape = [rng.randint(4, 8) for _ in range(3)]
-    dtype = rng.choice(["uint8", "uint8", "uint8", "uint16", "float64", "float32"])
+    dtype = rng.choice(["uint8", "uint8", "uint8", "uint16", "float64", "float32", "int32",
+                        "uint32", "int64"])
     if rng.random() < 0.6:
         s = rng.choice(SEPS)
         sep = [s] * nd
@@ -180,6 +182,9 @@ def gen_image_case(rng, thorough=False):
     kind = rng.choice(["palette"] * 8 + ["plateau"] * 6 + ["checker"] * 4 + ["spikes"] * 4 +
                       ["blobs"] * 4 + ["black", "single"])
     maxval = 65535 if dtype == "uint16" else 255
+    wide = dtype in ("int32", "uint32", "int64")
+    if wide:      # more than 16 bits of range: grey values of 1e5 and beyond
+        maxval = rng.choice([10 ** 5 + 7, 10 ** 6, 2 ** 30, 2 ** 31 - 1])
     if dtype == "uint16" and rng.random() < 0.5:
         maxval = rng.choice([300, 1023, 4095])
     if dtype == "uint8" and rng.random() < 0.3:
@@ -210,6 +215,13 @@ def gen_image_case(rng, thorough=False):
     else:
         a = _spikes(rng, shape, meff, maxval) if kind == "spikes" else _texture(rng, shape, kind,
                                                                                   maxval)
+        if wide and kind != "black" and rng.random() < 0.7:
+            # several bright pixels that differ by 0..3 grey levels out of >= 1e5 (relative
+            # difference below 1e-5): close to a tie, but not one
+            a = np.ascontiguousarray(a)
+            flat = a.ravel()
+            for _ in range(rng.randint(2, 8)):
+                flat[rng.randrange(flat.size)] = maxval - rng.randint(0, 3)
         inp["pixels"] = [int(v) for v in a.ravel()]
     return inp
 
@@ -238,6 +250,9 @@ def gen_wc_case(rng):
     else:
         L = rng.randint(1, 4)
         inten = [rng.randint(1, L) * rng.choice([1, 1, 50]) for _ in range(n)]
+        if r > 0.8:     # large intensities that are nearly, but not exactly, equal
+            base = rng.choice([10 ** 5 + 3, 10 ** 6, 2 ** 31 - 7, 10 ** 9])
+            inten = [base + rng.randint(-2, 2) for _ in range(n)]
     if rng.random() < 0.02:
         sep = list(sep)
         sep[rng.randrange(nd)] = "0"
